@@ -305,6 +305,13 @@ def oneof_programs():
              N('C2', I('p1', 'A')), N('O', OO('p1', ['C1', 'C2']))]
     out += variants(P('cand_input_of_other_candidate', nodes, 'A', 'O', tags=['oneof']),
                     [[R({'P': ['raise:E1']})], [R({})]], ['pfails', 'ok'])
+    # the selected case of a switch is also a candidate of a one-of (and not the one that wins)
+    nodes = [N('A'), N('K', I('p1', 'A')), N('P1', I('p1', 'A')), N('P2', I('p1', 'A')), N('X', I('p1', 'A')),
+             N('M', OO('p1', ['P1', 'P2'])), N('W', SW('p1', 'K', [('l1', 'P2'), ('l2', 'X')], name='cac')),
+             N('O', I('p1', 'M'), I('p2', 'W'))]
+    out += variants(P('case_also_candidate', nodes, 'A', 'O', tags=['oneof', 'switch']),
+                    [[R({'K': ['label:l1']})], [R({'K': ['label:l2']})], [R({'K': ['label:l1'], 'P1': ['raise:E1']})],
+                     [R({'K': ['label:l1'], 'P2': ['raise:E2']})]], ['l1', 'l2', 'l1_p1fails', 'l1_p2fails'])
     # a candidate that reaches a switch whose selected case consumes a second switch whose selected case fails
     nodes = [N('A'), N('K2', I('p1', 'A')), N('BAD', I('p1', 'A')), N('GOOD', I('p1', 'A')),
              N('DEEP', SW('p1', 'K2', [('bad', 'BAD'), ('good', 'GOOD')], name='inner')), N('FLAT', I('p1', 'A')),
